@@ -22,6 +22,16 @@ func (r *Runner) coreWorld() *World {
 }
 
 func (r *Runner) replayCore(l *Line) lineResult {
+	if optVal(r.extra, "only", "") == "undo" {
+		// wide configurations: only behaviours that contain an undo are replayed
+		has := l.Step.A == "undo"
+		for i := range l.Hist {
+			has = has || l.Hist[i].A == "undo"
+		}
+		if !has {
+			return lineResult{skipped: "no undo in this behaviour (wide configuration replays undo behaviours only)"}
+		}
+	}
 	r.internLine(l)
 	w := r.coreWorld()
 	res := lineResult{insts: len(w.insts)}
